@@ -346,7 +346,7 @@ def eval_h5ds_copy(ctx, repo, agg):
     rec = Recorder()
     it, env = copier_env(repo, rec)
     node = repo.func(COPIER, "h5ds_copy")
-    ipc_node = repo.func(COPIER, "is_properly_compressed")
+    ipc_node = func_anywhere(repo, COPIER, "is_properly_compressed")
     fn = env.lookup("h5ds_copy")
     ipc = env.lookup("is_properly_compressed")
     n_eval = 0
@@ -860,14 +860,21 @@ def r83_tasks(ctx, repo):
             b_ds = binding(cf, txt(kwarg(cc[0], "ds", 0)))
             b_h5 = binding(cf, txt(kwarg(cc[0], "h5_cond", 1)))
             ok_s = ok_s and b_ds is not None and call_name(b_ds) \
-                == "new_dataset" and "path_in" in names_in(b_ds)
-            ok_d = ok_d and b_h5 is not None and _is_file(b_h5, "path_temp",
-                                                          True)
+                == "new_dataset" and bool(b_ds.args or b_ds.keywords)
+            ok_d = ok_d and b_h5 is not None and _is_file(b_h5, True)
+            if ok_s and ok_d:
+                p_s = b_ds.args[0] if b_ds.args else b_ds.keywords[0].value
+                ok_d = txt(p_s) != txt(kwarg(b_h5, "name", 0))
         else:
             b_s = binding(fn, txt(s))
             b_d = binding(fn, txt(d))
-            ok_s = b_s is not None and _is_file(b_s, "path_in", False)
-            ok_d = b_d is not None and _is_file(b_d, "path_temp", True)
+            ok_s = b_s is not None and _is_file(b_s, False)
+            ok_d = b_d is not None and _is_file(b_d, True)
+            if ok_s and ok_d:
+                # two different paths (which one is the input is decided
+                # by C10 R10.1 and, for compress, by the evaluation R8.20)
+                ok_d = txt(kwarg(b_s, "name", 0)) != txt(
+                    kwarg(b_d, "name", 0))
         ctx.ob("R8.3", ok_s, "rtdc_copy reads from the handle of the input "
                "path (opened read-only)" if ok_s else
                f"source of rtdc_copy is `{txt(s)}`, not a read-only handle "
@@ -917,11 +924,11 @@ def _negation_of(fn, v, flag):
     return False
 
 
-def _is_file(call, path_name, writable):
+def _is_file(call, writable):
     if call_name(call) not in ("h5py.File", "File"):
         return False
     p = kwarg(call, "name", 0)
-    if p is None or path_name not in names_in(p):
+    if p is None:
         return False
     mode = kwarg(call, "mode", 1)
     m = const_str(mode) if mode is not None else "r"
@@ -983,11 +990,12 @@ class MWriter:
                  compression_kwargs=None, registry=None, **kw):
         self.rec = rec
         self.h5 = path_or_h5file
-        if registry is not None and isinstance(self.h5, MPath):
-            if self.h5.name not in registry:
+        if registry is not None and isinstance(self.h5, (MPath, MP, str)):
+            key = str(self.h5)
+            if key not in registry:
                 raise L.ModelFault("FileNotFoundError",
-                                   f"no file at {self.h5.name}")
-            self.h5 = registry[self.h5.name]
+                                   f"no file at {key}")
+            self.h5 = registry[key]
         if not isinstance(self.h5, H.H5File):
             raise L.ModelFault("TypeError", "RTDCWriter model needs the "
                                "open output file")
@@ -1093,14 +1101,14 @@ def eval_condense(ctx, repo, agg):
                                  lambda **k: "cfghash"),
                hashfile=bind_like(repo, UTIL, "hashfile",
                                   lambda **k: "filehash")),
-           "common": L.namespace(
-               "common",
-               get_command_log=bind_like(repo, COMMON, "get_command_log",
-                                         lambda **k: ["command log"]),
-               assemble_warnings=bind_like(repo, COMMON, "assemble_warnings",
-                                           lambda **k: ["warnings"])),
            "warnings": L.namespace("warnings", warn=lambda *a, **k: None),
            "version": "0.0", "List": None}
+    ext["common"] = CommonNS(it, {
+        "get_command_log": bind_like(repo, COMMON, "get_command_log",
+                                     lambda **k: ["command log"]),
+        "assemble_warnings": bind_like(repo, COMMON, "assemble_warnings",
+                                       lambda **k: ["warnings"])},
+        ext["warnings"])
     env = it.env(CONDENSE, ext)
     fn = env.lookup("condense_dataset")
     C = MDataset.CLASSES
@@ -1208,6 +1216,45 @@ class MCatch:
         return False
 
 
+class CommonNS:
+    """`cli.common` for the task evaluations: the stand-ins given, every
+    other name (setup_task_paths, helpers and context managers a
+    refactoring adds) is the interpreted definition of cli/common.py"""
+
+    def __init__(self, it, stubs, warnings_ns):
+        self._stubs = stubs
+        self._env = it.env(COMMON, {
+            "pathlib": L.namespace("pathlib", Path=MP), "np": L.NPModel(),
+            "warnings": warnings_ns,
+            "fmt_tdms": L.Opaque("fmt_tdms"), "hashlib": L.Opaque("hashlib"),
+            "json": L.Opaque("json"), "numbers": L.Opaque("numbers"),
+            "platform": L.Opaque("platform"), "time": L.Opaque("time"),
+            "version": "0.0"})
+
+    def __getattr__(self, name):
+        if name.startswith("__"):
+            raise AttributeError(name)
+        if name in self._stubs:
+            return self._stubs[name]
+        return self._env.lookup(name)
+
+
+def func_anywhere(repo, rel, name):
+    """definition of `name` used in module `rel`: its own or the one it
+    imports from another module of the repository"""
+    from ..normalize import resolve_from_import
+    f = repo.func(rel, name, missing_ok=True)
+    if f is not None:
+        return f
+    r = resolve_from_import(repo, rel, name)
+    if r is not None:
+        f = repo.func(r[0], r[1], missing_ok=True)
+        if f is not None:
+            return f
+    raise AnalysisError(f"anchor vanished: {rel}::{name}")
+
+
+
 def eval_compress(ctx, repo, agg):
     """R8.20: the command logs of the task - logs of earlier runs are kept
     under another name, the logs of this run are written freshly"""
@@ -1231,11 +1278,11 @@ def eval_compress(ctx, repo, agg):
                 [f"earlier run: {k}".encode()])
         src.seal()
         registry = {}
-        p_in, p_out, p_tmp = (MPath(n_, log) for n_ in (
-            "in.rtdc", "out.rtdc", "out.rtdc~"))
+        del MP.LOG[:]
+        log = MP.LOG
 
         def open_file(path, mode="r", *a, **k):
-            name = getattr(path, "name", path)
+            name = str(path)
             if mode == "r":
                 if name != "in.rtdc":
                     raise L.ModelFault("FileNotFoundError", str(name))
@@ -1260,23 +1307,20 @@ def eval_compress(ctx, repo, agg):
                    rec, *a, registry=registry, **k),
                "util": L.namespace("util", hashfile=bind_like(
                    repo, UTIL, "hashfile", lambda **k: "md5sum")),
-               "common": L.namespace(
-                   "common",
-                   setup_task_paths=bind_like(
-                       repo, COMMON, "setup_task_paths",
-                       lambda **k: (p_in, p_out, p_tmp)),
-                   get_command_log=bind_like(
-                       repo, COMMON, "get_command_log",
-                       lambda **k: ["this run: command log"]),
-                   assemble_warnings=bind_like(
-                       repo, COMMON, "assemble_warnings",
-                       lambda **k: ["this run: warnings"])),
-               "warnings": L.namespace(
-                   "warnings", warn=lambda *a, **k: None,
-                   simplefilter=lambda *a, **k: None,
-                   catch_warnings=lambda **k: MCatch(wlist)),
-               "pathlib": L.Opaque("pathlib"), "argparse": L.Opaque("ap"),
-               "version": "0.0"}
+               "pathlib": L.namespace("pathlib", Path=MP),
+               "argparse": L.Opaque("ap"), "version": "0.0"}
+        wns = L.namespace(
+            "warnings", warn=lambda *a, **k: None,
+            simplefilter=lambda *a, **k: None,
+            catch_warnings=lambda **k: MCatch(wlist))
+        ext["warnings"] = wns
+        ext["common"] = CommonNS(it, {
+            "get_command_log": bind_like(
+                repo, COMMON, "get_command_log",
+                lambda **k: ["this run: command log"]),
+            "assemble_warnings": bind_like(
+                repo, COMMON, "assemble_warnings",
+                lambda **k: ["this run: warnings"])}, wns)
         env = it.env(COMPRESS, ext)
         fn = env.lookup("compress")
         res = L.run(lambda: fn(path_in="in.rtdc", path_out="out.rtdc"))
@@ -1563,6 +1607,13 @@ class MP:
 
     def unlink(self, *a, **k):
         raise L.ModelFault("FileNotFoundError", str(self._p))
+
+    #: renames performed on model paths (reset by the evaluation)
+    LOG = []
+
+    def rename(self, other):
+        MP.LOG.append(("rename", str(self), str(other)))
+        return MP(other)
 
     def __eq__(self, o):
         return isinstance(o, MP) and o._p == self._p
@@ -2767,4 +2818,45 @@ TWINS = list(TWINS) + [
       "                for start in range(0, src.shape[0], step):\n"
       "                    dst[start:start + step] = src[start:start + step]"
       "\n")),
+]
+
+# round-6 refactorings (campaign/refactorings_round6: C08/refactor2,
+# C10/refactor2, C10/refactor5; C08/refactor1 spans two files and is
+# replayed from the campaign directory only)
+TWINS = list(TWINS) + [
+    ("setup_task_paths returns a named tuple", COMMON,
+     [("import hashlib\n", "import collections\nimport hashlib\n"),
+      ("def setup_task_paths(",
+       "TaskPaths = collections.namedtuple(\n"
+       "    \"TaskPaths\", [\"paths_in\", \"paths_out\", \"paths_temp\"])\n"
+       "\n\ndef setup_task_paths("),
+      ("    return paths_in, paths_out, paths_temp\n",
+       "    return TaskPaths(paths_in=paths_in,\n"
+       "                     paths_out=paths_out,\n"
+       "                     paths_temp=paths_temp)\n")]),
+    ("compress: warnings recorded through a local context manager", COMPRESS,
+     [("import argparse\n", "import argparse\nimport contextlib\n"),
+      ("def compress(\n",
+       "@contextlib.contextmanager\n"
+       "def record_all_warnings():\n"
+       "    with warnings.catch_warnings(record=True) as w:\n"
+       "        warnings.simplefilter(\"always\")\n"
+       "        yield w\n\n\n"
+       "def compress(\n"),
+      ("    with warnings.catch_warnings(record=True) as w:\n"
+       "        warnings.simplefilter(\"always\")\n",
+       "    with record_all_warnings() as w:\n")]),
+]
+
+MUTANTS = list(MUTANTS) + [
+    ("named tuple of setup_task_paths with input and temp swapped", COMMON,
+     [("import hashlib\n", "import collections\nimport hashlib\n"),
+      ("def setup_task_paths(",
+       "TaskPaths = collections.namedtuple(\n"
+       "    \"TaskPaths\", [\"paths_in\", \"paths_out\", \"paths_temp\"])\n"
+       "\n\ndef setup_task_paths("),
+      ("    return paths_in, paths_out, paths_temp\n",
+       "    return TaskPaths(paths_in=paths_temp,\n"
+       "                     paths_out=paths_out,\n"
+       "                     paths_temp=paths_in)\n")], "R8."),
 ]
